@@ -102,6 +102,39 @@ def statically_huge(t):
     return abs(a ** b if op == "^" else a << b) > 5000
 
 
+def statically_huge_flat(t):
+    """the same for unparenthesised strings over small integer literals: a right-associative power chain whose upper part
+    exceeds 5000 used as an exponent or as a shift count (`5 ^ 3 ^ 2 ^ 7`, `5 << 3 ^ 2 ^ 7`)"""
+    toks = t.split(" ")
+    i = 0
+    while i < len(toks):
+        if toks[i] in ("^", "**", "<<", ">>") and i + 1 < len(toks):
+            # the power chain that starts right after this operator
+            j, chain = i + 1, []
+            while j < len(toks) and (len(chain) == 0 or toks[j - 1] in ("^", "**")):
+                try:
+                    chain.append(int(toks[j]))
+                except ValueError:
+                    chain = []
+                    break
+                j += 2
+                if j - 1 >= len(toks) or toks[j - 1] not in ("^", "**"):
+                    break
+            if len(chain) >= 2:
+                v = chain[-1]
+                for b in reversed(chain[:-1]):
+                    if abs(b) < 2 or v < 0:
+                        v = 1
+                        break
+                    if v > 64:
+                        return True
+                    v = b ** v
+                if abs(v) > 5000:
+                    return True
+        i += 1
+    return False
+
+
 def decide(run, texts, leg, shards, timeout_ms=4000, min_per_shard=300):
     import time
     t0 = time.time()
@@ -157,7 +190,9 @@ def run(tier, seed):
     run.add_tlc(r1, "MC_ExprGen flat")
     t1b, r1b = evalkit.gen_cases("c01flats", "flat", binops=BINOPS_CORE, maxbin=2, chain=chain, signs=["", "-", "+"])
     run.add_tlc(r1b, "MC_ExprGen flat signed")
-    s1, a1 = decide(run, t1 + t1b, "flat", shards, timeout_ms=3000)
+    flat = [t for t in t1 + t1b if not statically_huge_flat(t)]
+    run.note("flat_texts_not_evaluated_statically_huge", len(t1) + len(t1b) - len(flat))
+    s1, a1 = decide(run, flat, "flat", shards, timeout_ms=3000)
     run.sample({"leg": "flat", "q": t1[len(t1) // 2]})
 
     # G2: tree sweep over a rotated literal alphabet
@@ -186,7 +221,7 @@ def run(tier, seed):
     run.sample({"leg": "lit", "q": t3[len(t3) // 2]})
 
     # V: seeded random trees with big operands (sizes follow the measured cost of the TLA+ bignum)
-    n_big = 8000 if thorough else 600
+    n_big = 3000 if thorough else 600
     tv = [rand_tree(rng, rng.randint(2, 5 if thorough else 4), 512 if thorough else 256) for _ in range(n_big)]
     # huge integer operands (no denominators): + - * mod and or xor shifts
     for _ in range(300 if thorough else 40):
